@@ -64,6 +64,10 @@ FRAGMENTS = [
     "r = t.gather(1, torch.tensor([[2, 0, 0, 1], [1, 1, 2, 0]]))",
     "r = t.gather(0, torch.tensor([[1, 0, 0]]))",
     "ix = torch.tensor([0, 1, 1, 2]).unsqueeze(0).repeat_interleave(2, dim=0)\nr = t.gather(1, ix) - 1",
+    "c = torch.tensor([10.0, 20.0, 30.0, 40.0])\nidx = (t.abs().long() % 4)\nr = c[idx]",
+    "c = torch.tensor([[1.0, 2.0], [3.0, 4.0], [5.0, 6.0]])\nidx = (t.abs().long() % 3)\nr = c[idx]",
+    "z = torch.zeros(*t.shape[:-1], 2)\nr = z.shape",
+    "z = torch.ones(*t.shape, 2)\nr = z.sum(dim=-1) + t",
     "r = t[::2, 1]",
     "r = t[:, ::2]",
     "r = t[1:, 1::2]",
